@@ -8,7 +8,7 @@ from .. import gens, model, printing, rfc
 from ..core import Prop, Violation
 from ..lib import flag_names
 from .c12 import mutate
-from .c15 import utils_documents
+from .c15 import utils_documents, other_number
 from .c16 import dump_to_jv
 
 EDITS = ["identity", "permute", "key_case_in_array", "key_case_in_array", "string_change", "bool_flip", "type_change", "key_rename", "member_add", "member_drop", "element_add",
@@ -23,7 +23,7 @@ def edit(jv, kind, rnd):
         out = copy.deepcopy(jv)
         sites = [n for n in model.walk_jv(out) if n[0] == "N"]
         n = rnd.choice(sites)
-        n[1] = n[1] + rnd.choice([1.0, -1.0, 0.5, 3.0, -0.125])
+        n[1] = other_number(n[1], rnd)
         return out, True
     if kind == "key_case_in_array":
         # flip the case of one key of an object that sits (at any depth) below an array
@@ -91,22 +91,102 @@ class C17(Prop):
     ID = "C17"
     RULE = ("pairs (from, to) of documents with distinct keys per object (Utils alphabet incl. '/', '~', '~0', '~1', '', digits) and numbers on "
             "a 1/8 grid: to = from after 0-4 drawn edits (member/element add/drop/swap, rename, case flip, type/bool/string/number change, "
-            "permutation) or an independent document. Oracle: GeneratePatchesCaseSensitive returns an array of objects with op in "
+            "permutation) or an independent document; plus documents 998..1500 levels deep built through the API (equal, or differing only at the bottom). Oracle: GeneratePatchesCaseSensitive returns an array of objects with op in "
             "{add, remove, replace}, a syntactically valid path and 'value' exactly when needed; the Python RFC 6902 reference applied to "
             "from gives a document equal to to; the library applied to a duplicate of from returns 0 and gives to; the patch is empty iff "
             "from equals to; afterwards both inputs equal their originals as values, are structurally sound, and every container still "
             "accepts an append. non-trivial = pairs differing inside a nested container, or with a '/'/'~' key on the path of a "
             "difference, or an array shortened by >= 2; distinct by pair hash")
     ASSUMPTIONS = ["numbers are generated well separated so that tolerance equality and exact equality coincide"]
-    REQUIRED_CLASSES = ["equal_pair", "nested_difference", "escaped_key_in_patch", "array_shortened>=2", "independent", "ownership_flags_variant", "path_length_sweep"]
+    REQUIRED_CLASSES = ["equal_pair", "nested_difference", "escaped_key_in_patch", "array_shortened>=2", "independent", "ownership_flags_variant", "path_length_sweep", "deep_documents", "second_generation_after_edits"]
 
     def budget(self, tier):
         return {"workers": 14, "examples": 900 if tier == "quick" else 20000}
 
     def strategy(self, tier):
-        return st.fixed_dictionaries({"from": utils_documents(max_leaves=10, min_leaves=2), "other": utils_documents(max_leaves=8),
+        main = st.fixed_dictionaries({"from": utils_documents(max_leaves=10, min_leaves=2), "other": utils_documents(max_leaves=8),
                                       "edits": st.lists(st.sampled_from(EDITS), max_size=4), "independent": gens.chance(6),
                                       "rseed": st.integers(0, 2 ** 31)})
+        deep = st.fixed_dictionaries({"kind": st.just("deep"), "depth": st.sampled_from([998, 999, 1000, 1001, 1002, 1500]),
+                                      "shape": st.sampled_from(["O", "A", "OA", "AO", "OOA"]),
+                                      "what": st.sampled_from(["equal", "equal", "leaf_change", "add_at_bottom", "remove_at_bottom"])})
+        return st.one_of(*([main] * 40 + [deep]))
+
+    def second_round(self, lib, pf, pt, rnd, stats):
+        """history: the inputs of a generation (whose members it may have reordered) are edited through the core API -
+        members are added whose keys sort first, in the middle and last - and a patch is generated again; it must be
+        judged by the documents as they are now"""
+        jf, jt = dump_to_jv(lib, pf), dump_to_jv(lib, pt)
+        added = [0]
+
+        def grow(p, jv, prob):
+            if jv[0] == "O":
+                for key in (b"\x01early", b"b2", b"\x7fzz late"):
+                    if rnd.random() < prob and all(k != key for k, _ in jv[1]):
+                        v = float(rnd.randint(1, 3))
+                        if not lib.cJSON_AddItemToObject(p, key, lib.cJSON_CreateNumber(v)):
+                            raise Violation("AddItemToObject fails on an input of an earlier patch generation", key="append-lost")
+                        jv[1].append([key, ["N", v]])
+                        added[0] += 1
+            elif jv[0] == "A" and rnd.random() < prob / 2:
+                lib.cJSON_AddItemToArray(p, lib.cJSON_CreateNumber(9.0))
+                jv[1].append(["N", 9.0])
+                added[0] += 1
+            if jv[0] in "AO":
+                for kp, ch in zip(lib.children(p), jv[1]):
+                    grow(kp, ch if jv[0] == "A" else ch[1], prob)
+        grow(pf, jf, 0.5)
+        grow(pt, jt, 0.5)
+        if not added[0]:
+            return
+        stats.cls("second_generation_after_edits")
+        patch = lib.cJSONUtils_GeneratePatchesCaseSensitive(pf, pt)
+        dup = None
+        try:
+            if not patch:
+                raise Violation("second GeneratePatchesCaseSensitive returned NULL", key="null")
+            pj = dump_to_jv(lib, patch)
+            ctx = "(second generation, after appending members to the inputs of the first) from %s to %s patch %s" % (
+                model.emit_text(jf)[:200], model.emit_text(jt)[:200], model.emit_text(pj)[:300])
+            equal = model.eq_set(jf, jt, True)
+            if pj[0] != "A" or equal != (len(pj[1]) == 0):
+                raise Violation("patch is %s although the documents are %s: %s" % ("empty" if not pj[1] else "not empty", "equal" if equal else "different", ctx),
+                                key="empty-iff-equal")
+            try:
+                ref = rfc.patch_apply(jf, pj)
+            except rfc.PatchError as e:
+                raise Violation("the generated patch does not apply to 'from' under RFC 6902 (%s): %s" % (e, ctx), key="ref-apply-fails")
+            if not model.eq_set(ref, jt, True):
+                raise Violation("the generated patch (reference evaluation) yields %s, not 'to': %s" % (model.emit_text(ref)[:200], ctx), key="ref-result")
+            dup = lib.cJSON_Duplicate(pf, 1)
+            status = lib.cJSONUtils_ApplyPatchesCaseSensitive(dup, patch)
+            if status != 0 or not model.eq_set(dump_to_jv(lib, dup), jt, True):
+                raise Violation("the library applying its own patch (status %d) does not yield 'to': %s" % (status, ctx), key="lib-result")
+            for p, j, name in ((pf, jf, "'from'"), (pt, jt, "'to'")):
+                sound_and_usable(lib, p, name)
+                if not model.eq_set(dump_to_jv(lib, p), j, True):
+                    raise Violation("%s changed in value during the second patch generation: %s" % (name, ctx), key="input-modified")
+        finally:
+            for p in (patch, dup):
+                if p:
+                    lib.cJSON_Delete(p)
+
+    def run_deep(self, lib, stats, case):
+        """documents nested as deep as (and deeper than) anything the parser produces, built through the API: equal ones
+        (the patch must be empty) and ones that differ only at the bottom"""
+        d, shape, what = case["depth"], case["shape"], case["what"]
+
+        def chain(bottom):
+            node = bottom
+            for i in range(d, 0, -1):
+                node = ["A", [node]] if shape[i % len(shape)] == "A" else ["O", [[b"n", node]]]
+            return node
+        base = ["O", [[b"keep", ["N", 1.0]], [b"drop", ["t"]]]]
+        other = {"equal": base, "leaf_change": ["O", [[b"keep", ["N", 2.0]], [b"drop", ["t"]]]],
+                 "add_at_bottom": ["O", base[1] + [[b"new", ["S", b"x"]]]], "remove_at_bottom": ["O", base[1][:1]]}[what]
+        stats.cls("deep_documents")
+        stats.nontriv(["deep", d, shape, what], {"depth": d, "shape": shape, "difference": what})
+        self.run_case(lib, {"from": chain(base), "other": chain(copy.deepcopy(other)), "edits": [], "independent": True, "rseed": 1, "quiet": True, "deep": True}, stats)
 
     def prelude(self, lib, stats, index, nworkers, tier):
         """every length of the composed pointer from 1 to 300 bytes (add and remove, top level and nested, keys with and
@@ -138,6 +218,8 @@ class C17(Prop):
     def run_case(self, lib, case, stats):
         if case.get("kind") == "pathlen":
             return self.run_pathlen(lib, stats, case)
+        if case.get("kind") == "deep":
+            return self.run_deep(lib, stats, case)
         rnd = random.Random(case["rseed"])
         frm = case["from"]
         if case["independent"]:
@@ -210,6 +292,8 @@ class C17(Prop):
             if not model.eq_set(dump_to_jv(lib, dup), to, True):
                 raise Violation("the library applying its own patch yields %s: %s" % (model.emit_text(dump_to_jv(lib, dup))[:200], ctx), key="lib-result")
             sound_and_usable(lib, dup, "patched copy")
+            if not case.get("deep"):
+                self.second_round(lib, pf, pt, rnd, stats)
             # classification
             cls = set()
             if equal:
